@@ -269,6 +269,11 @@ def main():
                 recs = [json.loads(l) for l in open(outp)]
         if not recs:
             violation(ctx, {"what": "persistrun did not complete", "broken": "correspondence persistrun vs coq/PersistLoop.v"}, found_input=False)
+        shut = [r for r in recs if r.get("kind") == "shutdown_save"]
+        recs = [r for r in recs if r.get("kind") == "persist"]
+        ctx.coverage["shutdown_during_save"] = [{k: r.get(k) for k in ("ok", "stored_jobs", "stored_completed", "what")} for r in shut]
+        for r in [r for r in shut if not r["ok"]]:
+            violation(ctx, {"what": r.get("what"), "persist_scenario": r["scenario"], "events": r.get("events")})
         terms = []
         for i, r in enumerate(recs):
             evs = ["OChange" if e["kind"] == "change" else "OSave %d%%nat" % e["version"] for e in r["events"] if e["kind"] in ("change", "save_begin")]
